@@ -1,6 +1,6 @@
 (* C08 — fitted model parameters maximise the training criterion within their constraints. *)
 From Coq Require Import List ZArith Reals Bool.
-From RSA Require Import Prelude Vec VecR LinAlg CompareModel CompareProofs CeilModel FitModel FitProofs.
+From RSA Require Import Prelude Vec VecR LinAlg CompareModel CompareProofs CeilModel FitModel FitProofs FormProofs.
 Import ListNotations.
 Open Scope R_scope.
 
@@ -113,3 +113,12 @@ Theorem C08_nnls_kkt : forall G b t, nnls ROps G b = Some t ->
   Forall (fun x => 0 <= x) t /\ Forall (fun g => g <= 0) (gradient ROps G b t) /\ dot ROps t (gradient ROps G b t) = 0.
 Proof. exact nnls_kkt. Qed.
 Print Assumptions C08_nnls_kkt.
+
+(* the symmetry hypothesis of the whitened theorems holds for every entrywise symmetric square matrix (the correspondence
+   checks this decidable property, and positive pivots of V, for every whitening matrix it uses) *)
+Theorem C08_symmetric_matrix_symmetric_form : forall p W,
+  length W = p -> Forall (fun r => length r = p) W ->
+  (forall i j, (i < p)%nat -> (j < p)%nat -> wentry W i j = wentry W j i) ->
+  forall x y, length x = p -> length y = p -> white_form W x y = white_form W y x.
+Proof. exact symmetric_matrix_symmetric_form. Qed.
+Print Assumptions C08_symmetric_matrix_symmetric_form.
